@@ -19,7 +19,8 @@ from numba_scfg.core.datastructures.byte_flow import ByteFlow  # noqa: E402
 from numba_scfg.core.datastructures import basic_block as bb  # noqa: E402
 from numba_scfg.core.datastructures.scfg import SCFG  # noqa: E402
 
-LEVEL = "translation_validation"
+LEVEL = "proof"
+EXTRA_PROPS_FILES = ["Scfg/Props/C17Render.lean"]
 
 
 def cj(xs):
@@ -58,6 +59,7 @@ def label_problems(scfg, nodes, clusters):
 
 def render_case(scfg, how="scfg", bf=None):
     """returns (driver SPEC line | None, [problems])"""
+    render_case.model = None
     try:
         src = SCFGRenderer(scfg).render_scfg().source if how == "scfg" else ByteFlowRenderer().render_byteflow(bf).source
     except Exception as e:  # noqa: BLE001
@@ -81,6 +83,7 @@ def render_case(scfg, how="scfg", bf=None):
     ns = cj(f"{n}@{c}" for n, (c, _) in nodes.items())
     cs = cj(f"{n}@{p}" for n, (p, _) in clusters.items())
     es = cj(f"{s}>{d}:{'d' if a.get('style') == 'dashed' else 's'}" for s, d, a in edges)
+    render_case.model = (f"RENDER {top} {'1' if how == 'byteflow' else '0'}", f"ok {ns} {cs} {es}")
     return f"SPEC drawing {top} {ns} {cs} {es}", probs
 
 
@@ -125,11 +128,23 @@ def _work(chunk):
                 top, hl = export.export(scfg)
                 lines += [f"H {top} {hl}", spec]
                 meta += [None, (succ, stage)]
+                if render_case.model:
+                    # the Lean model of the renderer's control flow must emit the same nodes,
+                    # clusters and edges in the same order as the real DOT source
+                    lines.append(render_case.model[0])
+                    meta.append(("model", succ, stage, render_case.model[1]))
     rep = drv.run(lines) if lines else []
+    mism, nmodel = [], 0
     for m, r in zip(meta, rep):
-        if m is not None and r != "1":
+        if m is None:
+            continue
+        if m[0] == "model":
+            nmodel += 1
+            if r != m[3]:
+                mism.append((m[1], m[2], m[3][:300], r[:300]))
+        elif r != "1":
             fails.append((m[0], m[1], "drawing differs from the hierarchy (nodes / clusters / edges)"))
-    return n, fails
+    return n, fails, nmodel, mism
 
 
 def run(ctx):
@@ -170,6 +185,17 @@ def run(ctx):
         parts = pool.map(_work, chunks)
     n = sum(p[0] for p in parts)
     fails = [f for p in parts for f in p[1]]
+    nmodel = sum(p[2] for p in parts)
+    mism = [m for p in parts for m in p[3]]
+    broken = []
+    if mism:
+        m0 = min(mism, key=lambda m: (len(m[0]) if m[0] else 99, str(m[0])))
+        path = common.write_replay("C17", {"property": "C17", "kind": "correspondence-broken",
+                                           "what": "Lean model of the renderer (Scfg/Model/Render.lean) disagrees with the drawing parsed from the real DOT source",
+                                           "input_succ": [list(x) for x in m0[0]] if m0[0] else "bytecode", "stage": m0[1],
+                                           "expected_from_code": m0[2], "model_reply": m0[3], "count": len(mism)})
+        broken.append({"signature": {"kind": "correspondence"}, "replay": path, "nfi": True,
+                       "what": f"render model mismatch on {len(mism)} drawings"})
     by = {}
     for succ, stage, why in fails:
         key = (stage, why if why.startswith(("render raised", "drawing", "DOT")) else "label: " + why.split(":")[-1].strip().split(" ")[0:3].__str__())
@@ -185,15 +211,16 @@ def run(ctx):
            "evaluations": n, "distinct_nontrivial": len(inputs),
            "rule": "closed CFGs as for C01 (≤14 nodes, every third in the quick tier) + the same and random CFGs (≤8 nodes, endless loops included) with their depth-first back arcs declared, as the YAML/dict front end allows + two bytecode functions through ByteFlowRenderer; "
                    "rendered before and after every stage; DOT parsed by harness/dot.py",
-           "drawings_checked": n, "failures_by_kind": {f"{k[0]}:{k[1]}": len(v) for k, v in by.items()}}
-    return {"level": LEVEL, "coverage": cov, "violations": violations,
+           "drawings_checked": n, "model_comparisons": nmodel, "model_mismatches": len(mism),
+           "traces_validated_against_impl": nmodel, "failures_by_kind": {f"{k[0]}:{k[1]}": len(v) for k, v in by.items()}}
+    return {"level": LEVEL, "coverage": cov, "violations": violations, "broken": broken,
             "assumptions": ["the DOT printer of the graphviz package and harness/dot.py are trusted; labels are checked for containing each field, not for layout"]}
 
 
 def replay(path):
     d = json.load(open(path if os.path.isabs(path) else os.path.join(common.VERIF, path)))
     succ = d["input_succ"]
-    n, fails = _work([("replay", tuple(tuple(s) for s in succ))]) if isinstance(succ, list) else _work([(gfun, None)])
+    n, fails, _, _ = _work([("replay", tuple(tuple(s) for s in succ))]) if isinstance(succ, list) else _work([(gfun, None)])
     print(fails[:5])
     if fails:
         print(f"VIOLATION property=C17 replay={path}")
